@@ -8,6 +8,8 @@ reference evaluator (E2).
 """
 from __future__ import annotations
 
+import itertools
+
 from .. import gramspace as gs
 from .. import impl
 from ..refsem import Cfg, Ref, Undecided
@@ -325,6 +327,31 @@ def named_composites(prof):
     return out
 
 
+def repeated_names(prof):
+    """One name bound three or more times, the later bindings made in scopes that are then given up (an iteration,
+    an option, a lookahead, an optional that fails after the binding): what a scope binds must vanish with it."""
+    t1, t2 = ('tok', prof[0]), ('tok', prof[1])
+    X = lambda e: ('named', 'x', e)      # noqa: E731
+    L = lambda e: ('nlist', 'x', e)      # noqa: E731
+    out = []
+    for N in (X, L):
+        out += [
+            ('clo', ('seq', N(t1), t2)),
+            ('pclo', ('seq', N(t1), t2)),
+            ('seq', ('clo', ('seq', N(t1), t2)), ('opt', t1)),
+            ('seq', N(t1), N(t2), ('grp', ('alt', ('seq', N(t1), t2), t1))),
+            ('seq', N(t1), N(t2), ('look', N(t1)), t1),
+            ('seq', N(t1), N(t2), ('nlook', ('seq', N(t1), t2)), t1),
+            ('seq', N(t1), N(t2), ('opt', ('seq', N(t1), t2)), ('opt', t1)),
+            ('seq', ('clo', N(t1)), ('opt', ('seq', N(t2), t1)), ('opt', t2)),
+            ('seq', ('gather', t2, N(t1)), ('opt', t2)),
+            ('alt', ('seq', N(t1), N(t1), N(t1), t2), ('seq', N(t1), N(t1), ('clo', t1))),
+            ('seq', N(t1), ('clo', ('alt', ('seq', N(t2), t2), N(t2)))),
+        ]
+    out += [('seq', X(t1), L(t2), ('grp', ('alt', ('seq', L(t1), t2), t1)))]
+    return out
+
+
 def shard_helper_starts(m, items, inputs=(), prof=('a', 'b')):
     """Parsing from any rule named as start: the helper rules themselves."""
     g = build_grammar(('tok', prof[0]), helpers_for(*prof))
@@ -393,6 +420,9 @@ def run(rc):
                'documented expansions and the reference, and parses started from each helper rule; non-trivial = accepted and consumed input')
     rc.pmap(shard, exps, inputs=inputs, prof=prof)
     rc.pmap(shard, named_composites(prof), inputs=inputs, prof=prof)
+    sep = ' ' if prof[0].isalnum() else ''
+    token_inputs = [sep.join(t) for n in range(0, 7 if rc.tier == 'quick' else 9) for t in itertools.product(prof, repeat=n)]
+    rc.pmap(shard, repeated_names(prof), chunk=1, inputs=token_inputs, prof=prof)
     rc.pmap(shard_forms, rule_forms(), chunk=1, inputs=list(gs.inputs(['a', 'b', ' '], maxlen + 1)))
     rc.pmap(shard_text_forms, TEXT_FORMS, chunk=1, maxlen=maxlen + 1)
     rc.pmap(shard_helper_starts, ['r', 'R', 's', 'REST'], chunk=1, inputs=inputs, prof=prof)
